@@ -242,11 +242,18 @@ func (p *Parser) parseBinaryExpr(prec1 int) Expr {
 
 	x := p.parseUnaryExpr()
 
+	// a chain of operators builds a tree as deep as it is long: every
+	// operator counts as a level of nesting until the chain is complete.
+	n := 0
+	defer func() { p.nestLev -= n }()
+
 	for {
 		op, prec := p.token, p.token.Precedence()
 		if prec < prec1 {
 			return x
 		}
+		n++
+		p.incNestLev()
 
 		pos := p.expect(op)
 
@@ -304,8 +311,17 @@ func (p *Parser) parsePrimaryExpr() Expr {
 
 	x := p.parseOperand()
 
+	// a chain of selectors, indexes and calls nests as deep as it is long.
+	n := 0
+	defer func() { p.nestLev -= n }()
+
 L:
 	for {
+		switch p.token {
+		case token.Period, token.LBrack, token.LParen:
+			n++
+			p.incNestLev()
+		}
 		switch p.token {
 		case token.Period:
 			p.next()
